@@ -114,6 +114,9 @@ type Report struct {
 	start     time.Time
 	distinct  map[string]bool
 	maxFind   int
+	perSig    map[string]int
+	total     int
+	oracleKept int
 	maxSample int
 }
 
@@ -140,13 +143,25 @@ func (r *Report) Sample(s interface{}) {
 }
 
 func (r *Report) Add(f Finding) {
-	if len(r.Findings) < r.maxFind {
-		r.Findings = append(r.Findings, f)
-	}
+	// keep at most 3 findings per (kind, property, signature): a flood of one class must not crowd out another
+	k := f.Kind + ":" + f.Property + ":" + f.Signature
 	r.Stat("finding:" + f.Kind + ":" + f.Signature)
+	if r.perSig == nil {
+		r.perSig = map[string]int{}
+	}
+	r.perSig[k]++
+	r.total++
+	if r.perSig[k] <= 3 {
+		r.Findings = append(r.Findings, f)
+		if f.Kind == "oracle" {
+			r.oracleKept++
+		}
+	}
 }
 
-func (r *Report) TooMany() bool { return len(r.Findings) >= r.maxFind }
+// TooMany: stop generating once the property oracle has produced enough concrete failing inputs, or after a flood
+// of findings of any kind (model disagreements alone do not stop the search for a failing input early).
+func (r *Report) TooMany() bool { return r.oracleKept >= 6 || r.total >= 400 }
 
 func (r *Report) Write(path string) {
 	r.Distinct = len(r.distinct)
